@@ -104,15 +104,19 @@ def ob_add_event(nw: int, b0: bool, b1: bool, b2: bool, q: int, wk: int, evk: in
             partitions_quick=[f"kind == {k}" for k in range(7)],
             partitions_thorough=[f"kind == {k} and nw == {n}" for k in range(7) for n in (1, 2, 3)],
             what="TickStepResult: exactly one NOT_RUNNING for the finished worker (none for a stale-collect re-run), placed before the "
-                 "RUNNING of a successor on the same slot; an InputRequiredEvent result is published exactly once")
-def ob_step_result(nw: int, b0: bool, b1: bool, b2: bool, q: int, wid: int, kind: int, pol: int, live: int, snap: int) -> bool:
+                 "RUNNING of a successor on the same slot; an InputRequiredEvent result is published exactly once (whether or not some "
+                 "step of the workflow accepts that event type)")
+def ob_step_result(nw: int, b0: bool, b1: bool, b2: bool, q: int, wid: int, kind: int, pol: int, live: int, snap: int, b_takes_ask: bool = False) -> bool:
     """
     pre: world_ab_valid(nw, b0, b1, b2, q) and q <= 2
     pre: 0 <= wid <= 2 and (b0 if wid == 0 else (b1 if wid == 1 else b2))
     pre: 0 <= kind <= 6 and 0 <= pol <= 2 and 0 <= snap <= live <= 2
+    pre: kind == 5 or not b_takes_ask
     post: _
     """
-    st = world_ab(nw, b0, b1, b2, q, policy=StubPolicy(pol), buf_live=live, buf_snap=snap)
+    # b_takes_ask: another step of the workflow (an audit / reminder step) also consumes the InputRequiredEvent type that is returned
+    st = world_ab(nw, b0, b1, b2, q, policy=StubPolicy(pol), buf_live=live, buf_snap=snap,
+                  b_accepts=([EvB, StartEvent, type(ASK)] if b_takes_ask else None))
     if kind == 0:
         res = [StepWorkerResult.model_construct(result=None)]
     elif kind == 1:
